@@ -26,6 +26,10 @@ def gen_case(rng, maxwin):
         x = [rng.randint(-99, 99) for _ in range(k * win)]
         xi = [rng.randint(-99, 99) for _ in range(k * win)] if cplx else None
         calls.append(dict(obj=o, cache=use_cache, x=x, xi=xi))
+    # "arbitrary real or complex input": the stream may arrive in single precision or as integers (one dtype per case: chunks of one stream)
+    dt = rng.choice(["double", "double", "single", "int"])
+    for cl in calls:
+        cl["dtype"] = dt
     return dict(taps=taps, nb=nb, h=h, calls=calls, seed=rng.randint(0, 10 ** 6))
 
 
@@ -101,10 +105,11 @@ def run(ctx):
         impl.extend(part)
     for c, r in zip(cases, impl):
         small = dict(taps=c["taps"], nb=c["nb"], h=c["h"], window_fn=c.get("window_fn"), real_window=c.get("real_window", False),
-                     calls=[dict(obj=cl["obj"], cache=cl["cache"], x=cl["x"], xi=cl["xi"]) for cl in c["calls"]], seed=c.get("seed", 0), window_order=c.get("window_order"))
+                     calls=[dict(obj=cl["obj"], cache=cl["cache"], x=cl["x"], xi=cl["xi"], dtype=cl.get("dtype")) for cl in c["calls"]], seed=c.get("seed", 0), window_order=c.get("window_order"))
         ctx.count(small, nontrivial=any(rc["shape"][0] > 0 for rc in r["calls"]))
         ctx.tally("taps", c["taps"]); ctx.tally("branches", c["nb"])
         ctx.tally("input", "complex" if c["calls"][0]["xi"] is not None else "real")
+        ctx.tally("input_dtype", c["calls"][0].get("dtype", "double"))
         ctx.tally("calls_per_case", len(c["calls"]))
         ctx.tally("window", "scipy:" + c["window_fn"] if c.get("real_window") else "integer")
         for key, msg in r["fails"]:
